@@ -2,10 +2,12 @@
 oracles evaluated on the implementation's own traces (hand-written, unverified:
 trusted base, DESIGN.md section 11)."""
 
+import os
 import re
 
 import engine
 import gen
+import gen_join
 from engine import History, parse_snapshot, split_line, present, data_bytes
 from props import Prop, Walk, CORE_OPS, REGISTRY, final_key, slot, text_hex, hex_text, BLANK
 from props_core import SpecProp, latent_ok, spec_parse
@@ -277,6 +279,32 @@ class C18(Prop):
 
 # ------------------------------------------------------------------ C20
 
+def deep_path_history(rng, hid):
+    """a simple path much longer than a group: segments of up to 16 vertices (one group each) chained by an edge between
+    two vertices that are already grouped (which unites nothing), so the walk of inspect() nests 17..60 levels deep;
+    a few side branches and a back edge to the start"""
+    seg = rng.pick([5, 8, 12, 16])
+    L = rng.pick([17, 18, 19, 20, 24, 33, 48, 60])
+    L = min(L, seg * 13)
+    if L % seg == 1:
+        L += 1            # a last segment of one vertex would join the previous (possibly full) group
+    cap = rng.pick([L + 2, 64, 256]) if L + 2 <= 64 else 256
+    N = rng.pick([2, 4, 16])
+    ops = ["NEW g %d" % cap] + ["ADD g %d" % v for v in range(L)]
+    starts = list(range(0, L, seg))
+    for s0 in starts:
+        for v in range(s0, min(s0 + seg, L) - 1):
+            ops.append("BIND g %d %d %s" % (v, v + 1, gen.lab_alpha(v % 3)))
+    for s0 in starts[1:]:
+        ops.append("BIND g %d %d %s" % (s0 - 1, s0, gen.lab_alpha(7)))        # both ends grouped: no group changes
+    if rng.chance(1, 2):
+        ops.append("BIND g %d 0 %s" % (L - 1, gen.lab_alpha(8)))          # back edge: a cycle through everything
+    if rng.chance(1, 2):
+        ops.append("PUT g %d %s" % (L - 1, gen.gen_data(rng)))
+    ops += ["SNAP g", "DEBUG g", "INSPECT g 0", "VPRINT g 0", "INSPECT g %d" % (L // 2), "INSPECT g %d" % (L - 1)]
+    return History(hid, N, ops)
+
+
 class C20(Prop):
     pid = "C20"
     ops = CORE_OPS | {"INSPECT", "DEBUG", "VPRINT"}
@@ -303,6 +331,8 @@ class C20(Prop):
             for v in ids:
                 ops += ["INSPECT g %d" % v, "VPRINT g %d" % v]
             hs.append(History("c20-%d" % i, N, ops))
+        for i in range(0 if os.environ.get("VERIF_NO_W8") else n // 12):
+            hs.append(deep_path_history(rng.fork(), "c20-deep%d" % i))
         return hs
 
     def check_inspect(self, txt, snap, v, i):
@@ -416,10 +446,37 @@ class C20(Prop):
 
 # ------------------------------------------------------------------ C13
 
+def dense_slice_history(rng, hid):
+    """dense reachable parts: the complete acyclic graph (or the complete digraph) on 6..14 vertices, edges stored in
+    descending, ascending or random target order – every vertex is met again and again during the walk"""
+    k = rng.pick([6, 8, 10, 12, 14])
+    cap = rng.pick([k, 16, 64])
+    ids = list(range(k)) if rng.chance(1, 2) else sorted(rng.below(cap) for _ in range(0))
+    if not ids:
+        pool = list(range(cap))
+        ids = sorted(pool.pop(rng.below(len(pool))) for _ in range(k))
+    order = rng.below(3)
+    full = rng.chance(1, 4)
+    ops = ["NEW g %d" % cap] + ["ADD g %d" % v for v in ids]
+    for i, v in enumerate(ids):
+        tg = [w for j, w in enumerate(ids) if (j > i or (full and j != i))]
+        if order == 0:
+            tg = tg[::-1]
+        elif order == 2:
+            tg = [tg.pop(rng.below(len(tg))) for _ in range(len(tg))]
+        for w in tg:
+            ops.append("BIND g %d %d %s" % (v, w, gen.lab_alpha(ids.index(w))))
+    ops.append("SNAP g")
+    for j, v in enumerate([ids[0], ids[1], ids[k // 2]]):
+        ops += ["SLICE g %d s%d" % (v, j), "SNAP g"]
+    ops += ["SLICE g %d s3 %d:%d:%s" % (ids[0], ids[0], ids[1], gen.lab_alpha(1)), "SNAP g"]
+    return History(hid, 16, ops)
+
+
 def slice_after_join_history(rng, hid):
     """the source went through a merge() that unified two of its vertices (a right graph with one kid under two names:
-    not a tree, outside merge()'s contract and outside the model): the store has a vacant slot from then on.  The slice
-    oracle needs the implementation's snapshots only, so it keeps judging; the comparison with the model stops at the merge."""
+    not a tree, outside merge()'s contract; covered by the extended model XJoin.v): the store has a vacant slot from then
+    on.  The slice oracle needs the implementation's snapshots only; the comparison with the model goes on past the merge."""
     cap = rng.pick([16, 32])
     n = 3 + rng.below(5)
     ops = ["NEW g %d" % cap] + ["ADD g %d" % v for v in range(n)]
@@ -470,6 +527,8 @@ class C13(Prop):
             hs.append(History("c13-%d" % i, N, ops))
         for i in range(30 if tier == "quick" else 1500):
             hs.append(slice_after_join_history(rng.fork(), "c13-join%d" % i))
+        for i in range(0 if os.environ.get("VERIF_NO_W8") else 40 if tier == "quick" else 1500):
+            hs.append(dense_slice_history(rng.fork(), "c13-dense%d" % i))
         return hs
 
     def oracle(self, h, il):
@@ -673,8 +732,8 @@ def add_reads(h, il_probe=None):
 
 def dag_merge_history(rng, hid):
     """a right graph in which one vertex is reached along two paths (not a tree: outside merge()'s documented contract and
-    outside every theorem, but inside the model unless the two paths end on different left vertices).  Correspondence only:
-    it executes the `mapped.get(to)` arm of merge_rec(), which no tree reaches."""
+    outside every theorem; when the two paths end on different left vertices merge() calls join(), which the extended
+    model XJoin.v covers).  Correspondence only: it executes the `mapped.get(to)` arm of merge_rec(), which no tree reaches."""
     cap = rng.pick([16, 24])
     labs = [gen.lab_alpha(i) for i in range(6)]
     a, b, c, d = rng.pick(labs[:2]), rng.pick(labs[2:4]), labs[4], rng.pick([labs[4], labs[5]])
@@ -684,7 +743,7 @@ def dag_merge_history(rng, hid):
         if rng.chance(1, 3):
             ops += ["ADD g 8", "BIND g 7 8 %s" % c]
             if rng.chance(1, 2):
-                # the left graph has both paths, ending on different vertices: merge() unifies them (join(), unmodelled)
+                # the left graph has both paths, ending on different vertices: merge() unifies them (join(), XJoin.v)
                 ops += ["ADD g 9", "BIND g 0 9 %s" % b, "ADD g 10", "BIND g 9 10 %s" % d]
     ops += ["NEW r %d" % cap, "ADD r 0", "ADD r 1", "ADD r 2", "ADD r 3", "BIND r 0 1 %s" % a, "BIND r 0 2 %s" % b,
             "BIND r 1 3 %s" % c, "BIND r 2 3 %s" % d]
@@ -719,6 +778,10 @@ class C12(MergeProp):
         n = 1500 if tier == "quick" else 80000
         hs = [merge_history(rng.fork(), "c12-%d" % i, extras=(i % 4 != 0)) for i in range(n)]
         hs += [dag_merge_history(rng.fork(), "c12-dag%d" % i) for i in range(40 if tier == "quick" else 2000)]
+        # merges that call join() (right graph not a tree, the two paths end on different left vertices) and calls on
+        # the vacant slot it leaves: correspondence with the extended model (XJoin.v) only, no claim of the property
+        hs += gen_join.crafted_histories("c12-jx")
+        hs += [gen_join.join_history(rng.fork(), "c12-join%d" % i) for i in range(400 if tier == "quick" else 20000)]
         return hs
 
     def oracle(self, h, il):
